@@ -46,8 +46,19 @@ LEVEL_TEXT = ('Coq theorems over an executable Gallina model of the account/capa
               'C02.F1 and C02.F43 well-formedness of the accounts for users.conf is an invariant of all histories, and from a well-formed database '
               '(hashed passwords) no history of commands, flushes and reloads adds an owner, whatever the id/name/hostmask collisions and trailing '
               'newlines in hostmasks (own reader theorem, C02/Reader.v).')
-LEVEL_NOTE = ('Trusted: Coq kernel, gen_tables.py, extraction + driver, harness; recognition of the sender (users.getUserId on hostmasks) is an '
-              'oracle input; the tie to the source is the regenerated converter/default tables plus the differential live run.')
+LEVEL_NOTE = ('Trusted: Coq kernel, gen_tables.py, extraction + driver, harness; recognition of the sender (users.getUserId, names and '
+              'hostmasks) is an oracle input; the tie to the source is the regenerated tables plus the differential live run.  Modelled, not '
+              'verified: all Python.  NOT modelled (gap audit): (1) only Owner, Misc, Config, User, Admin, Channel are loaded -- other bundled '
+              'plugins that write accounts are outside: NickAuth `nick add` (writes the nicks line; probed: a nick with a newline is accepted '
+              'and aborts the next load of users.conf, no capability gained), GPG / User gpg (gpgkey lines, login by key), '
+              'followIdentificationThroughNickChanges (off by default); (2) configuration is fixed to the defaults: supybot.capabilities, '
+              'capabilities.registeredUsers and capabilities.default enter the model as regenerated constants, so the theorems speak about the '
+              'default configuration only (config writes are C01/C15); CHANTYPES / casemapping of a server (005) are the defaults; (3) reloads of '
+              'channels.conf, ignores and the registry (`config reload`, SIGHUP) are not ops of the model: only users.conf is reloaded; (4) nested '
+              'commands ([...]) and non-canonical command spellings are not generated; (5) expiring ignores, the flood protection and the login '
+              'timeout are switched off; (6) an account with an unhashed password (hand-written `hashed False`) stores the next `user set password` '
+              'argument raw -- outside wf_state by hypothesis, reported, not repaired (the code keeps such accounts unhashed on purpose); (7) one '
+              'network, three speaking hostmasks plus one odd prefix; multi-network recognition is C04.')
 TECHNIQUE = 'Coq proof (induction over command histories, invariant on owner sets, composition with C16 round trip) + regenerated tables + extracted-model differential correspondence on a live bot'
 EXPLANATION = 'C02: model coq/C02/Model.v; theorems coq/C02/Props.v'
 
@@ -144,10 +155,11 @@ def _drain(B):
     return out
 
 
-def live_feed(B, prefix, text):
+def live_feed(B, prefix, text, where=None):
+    """one message from prefix: in private (where=None) or said in channel `where`, addressed with the prefix character"""
     irc, ircmsgs = B['irc'], B['ircmsgs']
     try:
-        m = ircmsgs.IrcMsg(prefix=prefix, command='PRIVMSG', args=(irc.nick, text))
+        m = ircmsgs.IrcMsg(prefix=prefix, command='PRIVMSG', args=((irc.nick, text) if where is None else (where, '@' + text)))
     except Exception:
         return []
     try:
@@ -352,15 +364,18 @@ def run_real(B, inp, want_trace=True):
                         c = ircutils.toLower(args[1])
                         pre = {'caps': {c}, 'ok': real_check(B, prefix, 'admin') and c != 'owner' and
                                (ircdb.isAntiCapability(c) or real_check(B, prefix, c))}
-                    elif st['cmd'] == 'channel capability add' and len(args) == 3:
-                        c = ircutils.toLower('%s,%s' % (args[0], args[2].strip()))
-                        pre = {'caps': {c}, 'ok': real_check(B, prefix, '%s,op' % args[0])}
+                    elif st['cmd'] == 'channel capability add':
+                        cargs = list(args)
+                        chan = cargs.pop(0) if cargs and ircutils.isChannel(cargs[0]) else st.get('where')
+                        if chan and len(cargs) == 2:
+                            c = ircutils.toLower('%s,%s' % (chan, cargs[1].strip()))
+                            pre = {'caps': {c}, 'ok': real_check(B, prefix, '%s,op' % chan)}
                 except Exception:
                     pre = None
                 if B['lookup_removed'][0] or any(r == 'DuplicateHostmask' for _, r in B['calls']):
                     unstable = True
                 del B['calls'][:]
-            live_feed(B, prefix, st['text'])
+            live_feed(B, prefix, st['text'], st.get('where'))
         after = dump(B)
         calls = list(B['calls'])
         if B['lookup_removed'][0] or any(r == 'DuplicateHostmask' for _, r in calls):
@@ -397,7 +412,7 @@ def run_real(B, inp, want_trace=True):
         if not st.get('op') and not unstable:
             bcaps = {u[0]: set(u[6]) for u in before['users']}
             nicks = [[p.split('!')[0], p] for p in ACTORS.values()]
-            env = [ACTORS[st['a']], [[k, wire.opt(v)] for k, v in lk.items()], nicks]
+            env = [ACTORS[st['a']], [[k, wire.opt(v)] for k, v in lk.items()], nicks, wire.opt(st.get('where'))]
             for u in after['users']:
                 for c in sorted(set(u[6]) - bcaps.get(u[0], set())):
                     grantq.append((idx, u[0], c, [3, [pre_wire, env, st['text'], u[0], c]]))
@@ -416,7 +431,7 @@ def wire_ops(inp, recs):
             ops.append([2])
         else:
             lk = [[s, wire.opt(v)] for s, v in r['lk'].items()]
-            ops.append([0, [ACTORS[st['a']], lk, nicks], st['text']])
+            ops.append([0, [ACTORS[st['a']], lk, nicks, wire.opt(st.get('where'))], st['text']])
     return ops
 
 
@@ -532,7 +547,20 @@ def gen_step(rng, hostile):
     if hostile and rng.random() < 0.1 and args:
         args = args[:-1] if rng.random() < 0.5 else args + [ch(NAMES)]
     quoted = [rng.random() < 0.3 for _ in args]
-    return {'a': actor, 'cmd': cmd, 'args': args, 'text': render(cmd, args, quoted)}
+    st = {'a': actor, 'cmd': cmd, 'args': args, 'text': render(cmd, args, quoted)}
+    # said in a channel rather than in private (the usual way to give `channel capability ...`): the channel
+    # argument may then be left out; the User commands refuse ('private')
+    r = rng.random()
+    if cmd.startswith('channel') and r < 0.5:
+        st['where'] = ch(['#c', '#c', '#c', '#d', '&e', '#C'])
+        if args and rng.random() < 0.6:
+            st['args'] = args[1:]
+            st['text'] = render(cmd, st['args'], quoted[1:])
+    elif cmd.startswith('admin') and r < 0.35:
+        st['where'] = ch(['#c', '#d'])
+    elif r < 0.08:
+        st['where'] = ch(['#c', '#d'])
+    return st
 
 
 def gen_history(rng, hostile):
@@ -540,8 +568,11 @@ def gen_history(rng, hostile):
     return {'init': gen_init(rng), 'steps': [gen_step(rng, hostile) for _ in range(n)]}
 
 
-def cmdstep(a, cmd, args):
-    return {'a': a, 'cmd': cmd, 'args': args, 'text': render(cmd, args, [True] * len(args))}
+def cmdstep(a, cmd, args, where=None):
+    st = {'a': a, 'cmd': cmd, 'args': args, 'text': render(cmd, args, [True] * len(args))}
+    if where:
+        st['where'] = where
+    return st
 
 
 INIT0 = {'accounts': [['boss', OWNER_PW, OWNER_MASK, ['owner']], ['adm', 'apw', ACTORS['adm'], ['admin', '#c,op']],
@@ -564,10 +595,19 @@ W_HMNL = {'init': INIT0, 'steps': [cmdstep('plain', 'user hostmask add', ['plain
                                    cmdstep('anon', 'user hostmask add', ['zed', 'evil!x@h\n  capability owner\n  hostmask e!y@h2']), cmdstep('anon', 'user hostmask add', ['zed', 'evil!x y@h']),
                                    cmdstep('adm', 'admin ignore add', [HM_PAYLOAD]), cmdstep('adm', 'admin ignore add', ['evil!x y@h']),
                                    cmdstep('anon', 'user hostmask remove', ['zed', HM_PAYLOAD]), {'op': 'reload'}]}
+W_INCHAN = {'init': INIT0, 'steps': [cmdstep('plain', 'admin capability add', ['plain', 'foo'], '#c'), cmdstep('plain', 'channel capability add', ['plain', 'voice'], '#c'),
+                                     cmdstep('adm', 'channel capability add', ['plain', 'op'], '#d'), cmdstep('adm', 'channel capability add', ['#d', 'plain', 'op'], '#c'),
+                                     cmdstep('adm', 'channel capability add', ['plain', 'halfop'], '#c'), cmdstep('adm', 'admin capability add', ['plain', 'bar'], '#d'),
+                                     cmdstep('adm', 'channel capability add', ['plain', '#d,op'], '#c'), cmdstep('plain', 'user register', ['x', 'pw'], '#c'),
+                                     cmdstep('adm', 'channel capability setdefault', ['False'], '#c'), cmdstep('adm', 'admin capability add', ['plain', 'qux'], '#c'),
+                                     cmdstep('plain', 'channel capability set', ['op'], '#c'), cmdstep('plain', 'admin capability add', ['plain', 'zzz'], '#c'),
+                                     cmdstep('adm', 'channel capability set', ['-admin.capability.add'], '#c'), cmdstep('adm', 'admin capability add', ['plain', 'blocked'], '#c'),
+                                     cmdstep('adm', 'admin capability add', ['plain', 'elsewhere'], '#d'), cmdstep('adm', 'channel capability add', ['#c', 'plain', 'voice'], '#d'),
+                                     cmdstep('anon', 'user unidentify', [], '#c'), cmdstep('adm', 'channel capability unset', ['-admin.capability.add'], '#c'), {'op': 'reload'}]}
 W_XCHAN = {'init': INIT0, 'steps': [cmdstep('adm', 'channel capability add', ['#c', 'plain', '#d,op'])]}
 INIT_OVER = dict(INIT0, extra={'plain': ['q!q@over.lap'], 'boss': ['*!*@over.lap']})
 CORPUS = [
-    W_F44, W_F44B, W_F1, W_F43, W_XCHAN, W_LINESEP, W_HMNL,
+    W_F44, W_F44B, W_F1, W_F43, W_XCHAN, W_LINESEP, W_HMNL, W_INCHAN,
     {'init': INIT_NOPW, 'steps': [cmdstep('anon', 'user hostmask add', ['root']), cmdstep('anon', 'user changename', ['root', 'mine']), {'op': 'reload'},
                                   cmdstep('anon', 'user changename', ['root', 'mine']), cmdstep('plain', 'user unregister', ['mine', '']),
                                   cmdstep('plain', 'user hostmask remove', ['mine', 'all']), cmdstep('plain', 'user identify', ['mine', ''])]},
